@@ -96,7 +96,10 @@ def build_props(mod):
                 res["forbidden"].append("%s: %s outside a section" % (f, line.strip()[:40]))
     vo = props[:-2] + ".vo"
     if os.path.exists(vo): os.remove(vo)
-    rc, out = build_target(mod.PROPS[:-2] + ".vo")
+    # the property's theorem file and every model/proof file that carries its id (a proof file that Props does not import
+    # must still compile: a lemma broken by a change elsewhere is an undischarged obligation, not dead code)
+    own = sorted(f[:-2] + ".vo" for f in coq_files() if re.match(r"(Model|Proofs)/%s_\w+\.v$" % re.escape(mod.ID), f))
+    rc, out = build_target(" ".join([mod.PROPS[:-2] + ".vo"] + own))
     res["log"] = out[-4000:]
     if rc != 0 or not os.path.exists(vo):
         m = re.search(r'File "\./?([^"]+)", line (\d+)', out)
